@@ -17,12 +17,13 @@ var VerifHarnesses = map[string]func(*verifrt.T){
 	"H_TB_iface":   H_TB_iface,
 	"H_TB_tags":    H_TB_tags,
 	"H_TB_deep":    H_TB_deep,
+	"H_TB_recmap":  H_TB_recmap,
 }
 
 // VerifSetup warms the opcode caches once per engine worker (the compiler runs
 // concretely on the type tokens; the values stay symbolic in the harnesses).
 func VerifSetup() {
-	for _, v := range []interface{}{&vtScalars{}, vtScalars{}, &vtNested{}, &vtRec{}, &vtIface{}, vtInner{}, &vtInner{}, &vsT{}, &vtTags{}, vtTags{}, &vtTop{}, vtTop{}, &vtIface2{}} {
+	for _, v := range []interface{}{&vtScalars{}, vtScalars{}, &vtNested{}, &vtRec{}, &vtIface{}, vtInner{}, &vtInner{}, &vsT{}, &vtTags{}, vtTags{}, &vtTop{}, vtTop{}, &vtIface2{}, &vtRecMap{}} {
 		Marshal(v)
 		MarshalIndent(v, "", " ")
 	}
@@ -572,4 +573,49 @@ func H_TB_deep(t *verifrt.T) {
 		b = append(b, '}')
 		checkMarshal(t, v, b)
 	}
+}
+
+// ---------------------------------------------------------------- recursive struct with map[string]interface{} (D14)
+
+type vtRecMap struct {
+	Next *vtRecMap              `json:"next"`
+	M    map[string]interface{} `json:"m"`
+	V    int                    `json:"v"`
+}
+
+func symMap(t *verifrt.T, name string, b []byte) (map[string]interface{}, []byte) {
+	switch t.Choice(name, 3) {
+	case 1:
+		return map[string]interface{}{}, append(b, "{}"...)
+	case 2:
+		x := int(smallInt(t, name+"x"))
+		b = append(b, `{"k":`...)
+		b = refInt(b, int64(x))
+		return map[string]interface{}{"k": x}, append(b, '}')
+	}
+	return nil, append(b, "null"...)
+}
+
+// the recursive member comes BEFORE the map member and the nested element's map
+// may be non-empty (the shape of recorded finding D14)
+func H_TB_recmap(t *verifrt.T) {
+	v := &vtRecMap{V: int(smallInt(t, "v"))}
+	b := []byte(`{"next":`)
+	if t.Choice("next", 2) == 1 {
+		v.Next = &vtRecMap{V: 1}
+		b = append(b, `{"next":null,"m":`...)
+		v.Next.M, b = symMap(t, "nm", b)
+		b = append(b, `,"v":1}`...)
+	} else {
+		b = append(b, "null"...)
+	}
+	b = append(b, `,"m":`...)
+	v.M, b = symMap(t, "m", b)
+	b = append(b, `,"v":`...)
+	b = refInt(b, int64(v.V))
+	b = append(b, '}')
+	// recorded finding D14: recursive pointer as FIRST field, map[string]interface{} after it,
+	// nested element with a non-empty map: the VM applies the wrong program to the map's values
+	t.KnownIfCrash("D14-recursive-first-field-then-map-of-interface-crashes", v.Next != nil && len(v.Next.M) > 0)
+	checkMarshal(t, v, b)
 }
